@@ -175,6 +175,37 @@ theorem refsAux_ok (names : List Bytes) (seen : List (Bytes × Int)) (l : List L
       · intro h; cases h
       · rintro ⟨h, _⟩; exact absurd (h c (List.mem_cons_self ..)) hb
 
+theorem hasPrefix_sound (s p : Bytes) (h : hasPrefix s p = true) : s = p ++ s.drop p.length := by
+  induction p generalizing s with
+  | nil => simp
+  | cons b p ih =>
+    cases s with
+    | nil => simp [hasPrefix] at h
+    | cons a s =>
+      simp only [hasPrefix, Bool.and_eq_true, beq_iff_eq] at h
+      obtain ⟨rfl, h2⟩ := h
+      simp only [List.length_cons, List.drop_succ_cons, List.cons_append, List.cons.injEq, true_and]
+      exact ih s h2
+
+/-- `splitOnce` cuts at an occurrence of the separator: `s = before ++ sep ++ after`. -/
+theorem splitOnce_sound (s sep a b : Bytes) (h : splitOnce s sep = some (a, b)) : s = a ++ sep ++ b := by
+  induction s generalizing a with
+  | nil => simp [splitOnce] at h
+  | cons x s ih =>
+    simp only [splitOnce] at h
+    split at h
+    · rename_i hp
+      simp only [Option.some.injEq, Prod.mk.injEq] at h
+      obtain ⟨rfl, rfl⟩ := h
+      simpa using hasPrefix_sound _ _ hp
+    · cases hs : splitOnce s sep with
+      | none => simp [hs] at h
+      | some p =>
+        obtain ⟨h1, t⟩ := p
+        simp only [hs, Option.some.injEq, Prod.mk.injEq] at h
+        obtain ⟨rfl, rfl⟩ := h
+        simp [ih h1 hs]
+
 theorem wrap64_le_self (n : Int) (h : 0 ≤ n) : I64.wrap64 n ≤ n := by
   unfold I64.wrap64; omega
 
